@@ -1,0 +1,125 @@
+//go:build verif
+
+package pathbadger
+
+import (
+	"encoding/binary"
+	"fmt"
+
+	"github.com/dgraph-io/badger/v4"
+
+	"github.com/oasisprotocol/oasis-core/go/common/cbor"
+	"github.com/oasisprotocol/oasis-core/go/storage/mkvs/db/api"
+	"github.com/oasisprotocol/oasis-core/go/storage/mkvs/node"
+)
+
+// VerifStoredNode describes a stored node the way leafFromDb looks at it.
+type VerifStoredNode struct {
+	Found     bool
+	Internal  bool
+	HasLeaf   bool
+	LeafKey   []byte
+	LeafValue []byte
+}
+
+// VerifLogEntry is one entry of a stored internal write log.
+type VerifLogEntry struct {
+	Kind    byte   // first byte of the raw entry
+	Key     []byte // deletions: the removed key
+	Version uint64 // insertions: decoded position key
+	Index   uint32
+	Node    VerifStoredNode // insertions: the finalized node stored at that position
+}
+
+// VerifInternalLog is the stored internal write log of a pair of roots (read-only view).
+type VerifInternalLog struct {
+	Entries  []VerifLogEntry
+	RootNode VerifStoredNode
+}
+
+func verifDescribe(item *badger.Item) (VerifStoredNode, error) {
+	out := VerifStoredNode{Found: true}
+	err := item.Value(func(raw []byte) error {
+		if len(raw) == 0 {
+			// The root node entry of an empty tree.
+			out.Found = false
+			return nil
+		}
+		n, err := nodeFromDb(raw)
+		if err != nil {
+			return err
+		}
+		switch nd := n.(type) {
+		case *node.LeafNode:
+			out.HasLeaf = true
+			out.LeafKey = append([]byte{}, nd.Key...)
+			out.LeafValue = append([]byte{}, nd.Value...)
+		case *node.InternalNode:
+			out.Internal = true
+			if nd.LeafNode != nil {
+				ln := nd.LeafNode.Node.(*node.LeafNode)
+				out.HasLeaf = true
+				out.LeafKey = append([]byte{}, ln.Key...)
+				out.LeafValue = append([]byte{}, ln.Value...)
+			}
+		}
+		return nil
+	})
+	return out, err
+}
+
+// VerifInternalWriteLog returns the internal write log stored for (startRoot, endRoot) together
+// with the nodes stored at the positions it references. It only reads.
+func VerifInternalWriteLog(ndb api.NodeDB, startRoot, endRoot node.Root) (*VerifInternalLog, error) {
+	d, ok := ndb.(*badgerNodeDB)
+	if !ok {
+		return nil, fmt.Errorf("not a pathbadger node database")
+	}
+	tx := d.db.NewTransactionAt(versionToTs(endRoot.Version), false)
+	defer tx.Discard()
+
+	startRootHash := api.TypedHashFromRoot(startRoot)
+	endRootHash := api.TypedHashFromRoot(endRoot)
+	item, err := tx.Get(writeLogKeyFmt.Encode(endRoot.Version, &endRootHash, &startRootHash))
+	if err != nil {
+		return nil, err
+	}
+	var log internalWriteLog
+	if err = item.Value(func(data []byte) error {
+		return cbor.UnmarshalTrusted(data, &log)
+	}); err != nil {
+		return nil, err
+	}
+
+	out := &VerifInternalLog{}
+	if item, err = tx.Get(rootNodeKeyFmt.Encode(endRoot.Version, &endRootHash)); err == nil {
+		if out.RootNode, err = verifDescribe(item); err != nil {
+			return nil, err
+		}
+	}
+	for _, raw := range log {
+		e := VerifLogEntry{Kind: raw[0]}
+		switch raw[0] {
+		case internalWriteLogKindDelete:
+			e.Key = append([]byte{}, raw[1:]...)
+		case internalWriteLogKindInsert:
+			if len(raw) != 1+8+4 {
+				return nil, fmt.Errorf("unexpected position key length %d", len(raw)-1)
+			}
+			e.Version = binary.BigEndian.Uint64(raw[1:9])
+			e.Index = binary.BigEndian.Uint32(raw[9:13])
+			item, err = tx.Get(finalizedNodeKeyFmt.Encode(byte(endRoot.Type), raw[1:]))
+			switch err {
+			case nil:
+				if e.Node, err = verifDescribe(item); err != nil {
+					return nil, err
+				}
+			case badger.ErrKeyNotFound:
+			default:
+				return nil, err
+			}
+		}
+		out.Entries = append(out.Entries, e)
+	}
+	return out, nil
+}
